@@ -109,6 +109,12 @@ def run_case(case):
         procs.append((hs, out, subprocess.Popen([sys.executable, "-m", "vlib.golden", sp, out], cwd=bootstrap.VERIF, env=env,
                                                   stdout=subprocess.DEVNULL, stderr=subprocess.PIPE, text=True)))
     # ------------------------------------------------------------------ history on ONE object per target
+    # "in the same or another process": the golden tables come from fresh processes that see
+    # only this model; here other models (same names with other bodies, and the same grid
+    # specifications with the other grid kind) are built and run first in THIS process
+    pipeline.run_sibling(desc, solve=True, counters=cnt)
+    if pipeline.run_sibling(desc, solve=True, counters=cnt, mode="swap_grid_kinds"):
+        add("sibling_with_swapped_grid_kinds")
     model = dsl.build_lcm_model(desc)
     hist_out = {}
     try:
